@@ -30,38 +30,31 @@ theorem mem_replaceIn {S : List Str} {k k' x : Str} :
   · simp [h]
   · simp [h]
 
-/-- the generic set: the nicks of the members satisfying `P` -/
-theorem replace_match (P : Flags → Prop) {S : List Str} {ms : List (Str × Flags)} (k k' : Str)
-    (hS : ∀ x, x ∈ S ↔ ∃ f, (x, f) ∈ ms ∧ P f) :
-    ∀ x, x ∈ replaceIn S k k' ↔ ∃ f, (x, f) ∈ renameKey ms k k' ∧ P f := by
-  intro x
-  rw [mem_replaceIn]
-  simp only [mem_renameKey_iff]
-  constructor
-  · rintro (⟨hk, rfl | ⟨hxk, hx⟩⟩ | ⟨hk, hx⟩)
-    · obtain ⟨f, hf, hp⟩ := (hS k).mp hk
+theorem Tracks.rename {full : Prop} {S : List Str} {ms : List (Str × Flags)} {P : Flags → Prop}
+    (h : Tracks full S ms P) (k k' : Str) : Tracks full (replaceIn S k k') (renameKey ms k k') P where
+  sub := fun x hx => by
+    simp only [mem_renameKey_iff]
+    rcases mem_replaceIn.mp hx with ⟨hk, rfl | ⟨hxk, hxS⟩⟩ | ⟨_, hxS⟩
+    · obtain ⟨f, hf, hp⟩ := h.sub k hk
       exact ⟨f, Or.inl ⟨rfl, hf⟩, hp⟩
-    · obtain ⟨f, hf, hp⟩ := (hS x).mp hx
+    · obtain ⟨f, hf, hp⟩ := h.sub x hxS
       exact ⟨f, Or.inr ⟨hf, hxk⟩, hp⟩
-    · obtain ⟨f, hf, hp⟩ := (hS x).mp hx
-      refine ⟨f, Or.inr ⟨hf, ?_⟩, hp⟩
-      intro e; subst e; exact hk hx
-  · rintro ⟨f, ⟨rfl, hf⟩ | ⟨hf, hxk⟩, hp⟩
-    · exact Or.inl ⟨(hS k).mpr ⟨f, hf, hp⟩, Or.inl rfl⟩
+    · obtain ⟨f, hf, hp⟩ := h.sub x hxS
+      by_cases hxk : x = k
+      · subst hxk; rename_i hk; exact absurd hxS hk
+      · exact ⟨f, Or.inr ⟨hf, hxk⟩, hp⟩
+  sup := fun hfull x ⟨f, hf, hp⟩ => by
+    rw [mem_replaceIn]
+    rcases mem_renameKey_iff.mp hf with ⟨hx, hf2⟩ | ⟨hf2, hxk⟩
+    · exact Or.inl ⟨h.sup hfull k ⟨f, hf2, hp⟩, Or.inl hx⟩
     · by_cases hk : k ∈ S
-      · exact Or.inl ⟨hk, Or.inr ⟨hxk, (hS x).mpr ⟨f, hf, hp⟩⟩⟩
-      · exact Or.inr ⟨hk, (hS x).mpr ⟨f, hf, hp⟩⟩
+      · exact Or.inl ⟨hk, Or.inr ⟨hxk, h.sup hfull x ⟨f, hf2, hp⟩⟩⟩
+      · exact Or.inr ⟨hk, h.sup hfull x ⟨f, hf2, hp⟩⟩
 
-theorem chanMatches_rename {sc : SChan} {ch : Chan} (h : ChanMatches sc ch) (o n : Str) :
-    ChanMatches { sc with members := renameKey sc.members (lower o) (lower n) } (ch.replaceUser o n) := by
-  refine ⟨?_, ?_, ?_, ?_, h.topic, h.modes, h.bans⟩
-  · intro x
-    have := replace_match (fun _ => True) (lower o) (lower n) (S := ch.users) (ms := sc.members)
-      (fun x => by simpa using h.users x) x
-    simpa [Chan.replaceUser] using this
-  · exact replace_match (fun f => f.o = true) (lower o) (lower n) h.ops
-  · exact replace_match (fun f => f.h = true) (lower o) (lower n) h.halfops
-  · exact replace_match (fun f => f.v = true) (lower o) (lower n) h.voices
+theorem chanMatches_rename {mp ms bs : Bool} {sc : SChan} {ch : Chan} (h : ChanMatches mp ms bs sc ch) (o n : Str) :
+    ChanMatches mp ms bs { sc with members := renameKey sc.members (lower o) (lower n) } (ch.replaceUser o n) :=
+  ⟨h.users.rename _ _, h.ops.rename _ _, h.halfops.rename _ _, h.voices.rename _ _, h.topic, h.modes, h.modesFull,
+    h.bans, h.bansFull⟩
 
 theorem has_rename {sc : SChan} {k k' x : Str} :
     ({ sc with members := renameKey sc.members k k' } : SChan).has x = true ↔
@@ -83,12 +76,12 @@ theorem not_has_of_free {s : Srv} (hw : SrvWF s) {kc : Str} {sc : SChan} (hsc : 
   have := (hw.chans kc sc hsc).members (x, f) hf
   rw [hx] at this; cases this
 
-theorem replaceUser_absent {sc : SChan} {ch : Chan} (h : ChanMatches sc ch) {o n : Str} (ho : lower o ∉ ch.users) :
-    ch.replaceUser o n = ch := by
-  have hno : ∀ f, (lower o, f) ∉ sc.members := fun f hf => ho ((h.users _).mpr ⟨f, hf⟩)
-  have h1 : lower o ∉ ch.ops := fun hx => by obtain ⟨f, hf, _⟩ := (h.ops _).mp hx; exact hno f hf
-  have h2 : lower o ∉ ch.halfops := fun hx => by obtain ⟨f, hf, _⟩ := (h.halfops _).mp hx; exact hno f hf
-  have h3 : lower o ∉ ch.voices := fun hx => by obtain ⟨f, hf, _⟩ := (h.voices _).mp hx; exact hno f hf
+theorem replaceUser_absent {mp ms bs : Bool} {sc : SChan} {ch : Chan} (h : ChanMatches mp ms bs sc ch) {o n : Str}
+    (ho : lower o ∉ ch.users) : ch.replaceUser o n = ch := by
+  have hno : ∀ f, (lower o, f) ∉ sc.members := fun f hf => ho ((h.users_iff _).mpr ⟨f, hf⟩)
+  have h1 : lower o ∉ ch.ops := fun hx => by obtain ⟨f, hf, _⟩ := h.ops.sub _ hx; exact hno f hf
+  have h2 : lower o ∉ ch.halfops := fun hx => by obtain ⟨f, hf, _⟩ := h.halfops.sub _ hx; exact hno f hf
+  have h3 : lower o ∉ ch.voices := fun hx => by obtain ⟨f, hf, _⟩ := h.voices.sub _ hx; exact hno f hf
   simp [Chan.replaceUser, replaceIn, ho, h1, h2, h3]
 
 theorem coupled_nick {s : Srv} {b : Bot} (hw : SrvWF s) (hc : Coupled s b) (n n' : Str) :
@@ -113,7 +106,7 @@ theorem coupled_nick {s : Srv} {b : Bot} (hw : SrvWF s) (hc : Coupled s b) (n n'
       obtain ⟨ub, hub, hubn⟩ := hw.bot
       have hub' : aget s.users s.botKey = some ub := hub
       -- the new state
-      generalize hs' : ({ s with users := aset (adel s.users (lower n)) (lower n') { u with nick := n' }, chans := s.chans.map (fun p => (p.1, { p.2 with members := renameKey p.2.members (lower n) (lower n') })), bot := if lower n = s.botKey then n' else s.bot } : Srv) = s'
+      generalize hs' : ({ s with users := aset (adel s.users (lower n)) (lower n') { u with nick := n' }, chans := s.chans.map (fun p => (p.1, { p.2 with members := renameKey p.2.members (lower n) (lower n') })), bot := if lower n = s.botKey then n' else s.bot, told := if (decide (lower n = s.botKey) || s.visible (lower n)) = true then sadd (sdel s.told (lower n)) (lower n') else sdel (sdel s.told (lower n)) (lower n') } : Srv) = s'
       have hchans' : ∀ kc, aget s'.chans kc = (aget s.chans kc).map
           (fun sc => { sc with members := renameKey sc.members (lower n) (lower n') }) := by
         intro kc; subst hs'
@@ -129,6 +122,10 @@ theorem coupled_nick {s : Srv} {b : Bot} (hw : SrvWF s) (hc : Coupled s b) (n n'
         · rw [if_pos h, if_pos h]
         · rw [if_neg h, if_neg h]; rfl
       have hcfg' : s'.cfg = s.cfg := by subst hs'; rfl
+      have hms' : s'.modesSynced = s.modesSynced := by subst hs'; rfl
+      have hbs' : s'.bansSynced = s.bansSynced := by subst hs'; rfl
+      have htold' : s'.told = if (decide (lower n = s.botKey) || s.visible (lower n)) = true
+          then sadd (sdel s.told (lower n)) (lower n') else sdel (sdel s.told (lower n)) (lower n') := by subst hs'; rfl
       have hnd' : (akeys s'.chans).Nodup := by
         subst hs'
         show (akeys (s.chans.map (fun p => (p.1, { p.2 with members := renameKey p.2.members (lower n) (lower n') })))).Nodup
@@ -193,7 +190,7 @@ theorem coupled_nick {s : Srv} {b : Bot} (hw : SrvWF s) (hc : Coupled s b) (n n'
       -- channels: shared by both cases
       have hchansrel : ∀ (b1 : Bot),
           (∀ kc, aget b1.channels kc = (aget b.channels kc).map (fun c => c.replaceUser u.nick n')) →
-          ∀ kc, ChanRel s' (aget s'.chans kc) (aget b1.channels kc) := by
+          ∀ kc, ChanRel s' kc (aget s'.chans kc) (aget b1.channels kc) := by
         intro b1 h6 kc
         rw [hchans', h6 kc]
         have hrel := hc.chans kc
@@ -217,7 +214,9 @@ theorem coupled_nick {s : Srv} {b : Bot} (hw : SrvWF s) (hc : Coupled s b) (n n'
             simp only [Option.map_some, ChanRel]
             refine ⟨(hbotin kc sc hsc).mpr hrel.1, ?_⟩
             have := chanMatches_rename hrel.2 u.nick n'
-            rw [hkey] at this; exact this
+            rw [hkey] at this
+            simp only [Srv.mSynced, Srv.bSynced, hcfg', hms', hbs']
+            exact this
       by_cases hsee : (decide (lower n = s.botKey) || s.visible (lower n)) = true
       · -- the bot receives the NICK
         simp only [hsee, ↓reduceIte, recvAll_cons, recv_emit, recvAll_nil]
@@ -267,6 +266,7 @@ theorem coupled_nick {s : Srv} {b : Bot} (hw : SrvWF s) (hc : Coupled s b) (n n'
           rw [aget_amapAll]
         · intro x ux hux hv
           rw [husers'] at hux
+          rw [htold', if_pos hsee] at hv
           show aget (aset (adel b.n2h (lower u.nick)) (lower n') (mkHostmask n' u.ident u.host)) x = _
           rw [aget_aset, aget_adel, hkey]
           by_cases h1 : lower n' = x
@@ -276,7 +276,9 @@ theorem coupled_nick {s : Srv} {b : Bot} (hw : SrvWF s) (hc : Coupled s b) (n n'
             by_cases h2 : lower n = x
             · simp [h2] at hux
             · simp only [h2, ↓reduceIte] at hux ⊢
-              exact hc.hosts x ux hux (hvis_other x (Ne.symm h2) (Ne.symm h1) hv)
+              rcases mem_sadd.mp hv with e | e
+              · exact absurd e.symm h1
+              · exact hc.hosts x ux hux (mem_sdel.mp e).2
         · intro kc sc' hsc' hb'
           rw [hchans'] at hsc'
           cases hsc : aget s.chans kc with
@@ -330,18 +332,16 @@ theorem coupled_nick {s : Srv} {b : Bot} (hw : SrvWF s) (hc : Coupled s b) (n n'
               intro hin
               rw [Bool.eq_false_iff] at hinv
               apply hinv
-              exact (visible_iff hw.chansNodup).mpr ⟨kc, sc, hsc, hrel.1, has_iff.mpr ((hrel.2.users _).mp hin)⟩
+              exact (visible_iff hw.chansNodup).mpr ⟨kc, sc, hsc, hrel.1, has_iff.mpr ((hrel.2.users_iff _).mp hin)⟩
         · intro x ux hux hv
           rw [husers'] at hux
-          by_cases h1 : lower n' = x
-          · subst h1
-            have := hvis_new hv
-            rw [hinv] at this; cases this
-          · simp only [h1, ↓reduceIte] at hux
-            by_cases h2 : lower n = x
-            · simp [h2] at hux
-            · simp only [h2, ↓reduceIte] at hux
-              exact hc.hosts x ux hux (hvis_other x (Ne.symm h2) (Ne.symm h1) hv)
+          have hsee2 : ¬ ((decide (lower n = s.botKey) || s.visible (lower n)) = true) := by
+            simp [hown, hinv]
+          rw [htold', if_neg hsee2] at hv
+          have hx1 : x ≠ lower n' := (mem_sdel.mp hv).1
+          have hx2 : x ≠ lower n := (mem_sdel.mp (mem_sdel.mp hv).2).1
+          simp only [Ne.symm hx1, ↓reduceIte, Ne.symm hx2] at hux
+          exact hc.hosts x ux hux (mem_sdel.mp (mem_sdel.mp hv).2).2
         · intro kc sc' hsc' hb'
           rw [hchans'] at hsc'
           cases hsc : aget s.chans kc with
